@@ -91,6 +91,21 @@ def run(ctx, factor):
         text = gen.render_listing(body, g)
         rule_path = sc.write(impl.dump_yaml(doc), ".yaml")
         in_path = obj if binary else sc.write(text, ".s")
+        if not binary and it % 3 == 2:
+            # the input path is a NAME the operating system resolves (symbolic links first, then `..`): both routes must
+            # open the file the OS opens for that string - here `<link-to-a-directory>/../x.s`, next to a decoy of the
+            # same name that a purely textual normalisation of the path would pick
+            real = os.path.join(sc.dir, "real_%d" % it)
+            os.makedirs(os.path.join(real, "sub"), exist_ok=True)
+            lnk = os.path.join(sc.dir, "lnk_%d" % it)
+            if not os.path.islink(lnk):
+                os.symlink(os.path.join(real, "sub"), lnk)
+            name = "in_%d.s" % it
+            with open(os.path.join(real, name), "w") as fh:
+                fh.write(text)
+            with open(os.path.join(sc.dir, name), "w") as fh:
+                fh.write(gen.render_listing([("1", "hlt", [])], g))
+            in_path = os.path.join(lnk, "..", name)
         # file names in ascending or descending path order, whatever the order on the command line
         stems = ["a_first", "z_second"] if (g.chance(0.5) and not two_files) else ["z_first", "a_second"]
         mpaths = []
